@@ -353,6 +353,54 @@ theorem delta_eq_sotw_wild (t : Ty) (hset : shouldSetWatched t = true) (hnr : ne
   intro n
   rw [hinv.1 n, hinv.2.1 n]
 
+/-! ### The abstract run is what the tied handlers do
+
+`wstep` is not a separate story: for a full, non delta-aware generator its two transitions are
+exactly what `pushDeltaOne` (the body of `pushConnectionDelta` / `processDeltaRequest`, the functions
+the `book`, `equiv`, `reconn` streams tie to the real code) computes for that type - same response,
+same new record - whenever the send succeeds. -/
+
+theorem pushDeltaOne_refines_wstep_push (gen : Gen) (v : Srv) (t : Ty) (w : WR) (s : WSt) (W : List Res)
+    (hset : shouldSetWatched t = true) (hnr : neverRemove t = false)
+    (hw : v.st t = some w) (hok : v.fail = false) (hgen : ∀ wn, gen t wn = fullOut W)
+    (hrec : s.record = w.names) :
+    ∃ v' wire, pushDeltaOne gen v t [] [] = (v', some wire, false) ∧
+      (wstep t s (.push W)).heldD = applyDelta s.heldD { resources := wire.resources, removed := wire.removed } ∧
+      (∃ w', v'.st t = some w' ∧ w'.names = (wstep t s (.push W)).record) := by
+  have hman : t.managed = false := by
+    cases t <;> simp_all [shouldSetWatched, Ty.managed, Ty.wildcard]
+  have hpd : pushDelta t w.names (fullOut W) =
+      some ({ resources := W, removed := diff w.names (names W) }, some (names W)) := by
+    simp [pushDelta, GenOut.nilOut, fullOut, hnr, removedRaw, newNames, hset]
+  refine ⟨{ v with st := sendDelta v.st t (freshNonce v) (some (names W)) true, ctr := v.ctr + 1 },
+    { ty := t, resources := W, removed := diff w.names (names W), nonce := freshNonce v }, ?_, ?_, ?_⟩
+  · simp [pushDeltaOne, hw, narrowedDelta, hgen, hpd, hok]
+  · simp [wstep, hrec, hpd]
+  · refine ⟨{ w with names := names W, nonceSent := freshNonce v }, by simp [sendDelta, hw], ?_⟩
+    simp [wstep, hrec, hpd]
+
+theorem pushDeltaOne_refines_wstep_request (gen : Gen) (v : Srv) (t : Ty) (w : WR) (s : WSt) (sub : List String)
+    (hset : shouldSetWatched t = true) (hnr : neverRemove t = false) (hsub : sub ≠ [])
+    (hw : v.st t = some w) (hok : v.fail = false) (hgen : ∀ wn, gen t wn = fullOut s.world) :
+    ∃ v' wire, pushDeltaOne gen v t sub [] = (v', some wire, false) ∧
+      (wstep t s (.request sub)).heldD = applyDelta s.heldD { resources := wire.resources, removed := wire.removed } ∧
+      (∃ w', v'.st t = some w' ∧ w'.names = (wstep t s (.request sub)).record) := by
+  have hman : t.managed = false := by
+    cases t <;> simp_all [shouldSetWatched, Ty.managed, Ty.wildcard]
+  have hpd : pushDelta t sub (fullOut s.world) =
+      some ({ resources := s.world, removed := diff sub (names s.world) }, some (names s.world)) := by
+    simp [pushDelta, GenOut.nilOut, fullOut, hnr, removedRaw, newNames, hset]
+  have hne : sub.isEmpty = false := by
+    cases sub with
+    | nil => exact absurd rfl hsub
+    | cons a as => rfl
+  refine ⟨{ v with st := sendDelta v.st t (freshNonce v) (some (names s.world)) true, ctr := v.ctr + 1 },
+    { ty := t, resources := s.world, removed := diff sub (names s.world), nonce := freshNonce v }, ?_, ?_, ?_⟩
+  · simp [pushDeltaOne, hw, narrowedDelta, hne, hman, hgen, hpd, hok]
+  · simp [wstep, hpd]
+  · refine ⟨{ w with names := names s.world, nonceSent := freshNonce v }, by simp [sendDelta, hw], ?_⟩
+    simp [wstep, hpd]
+
 /-- Explicit removal: a resource the delta client held that is absent from the pushed world is
     named in `removed_resources` (it is not merely dropped by the client model). -/
 theorem ceased_resources_removed (t : Ty) (hnr : neverRemove t = false)
